@@ -3,7 +3,7 @@ import ast
 from sa.index import AnalysisError, FuncInfo
 from sa.paths import call_name
 from sa.consteval import Folder, Unknown
-from rules.common import txt, paths_of, loc, tests_on, Quiet
+from rules.common import txt, paths_of, loc, tests_on, Quiet, guard_dnf
 
 CLS = 'urlutils.URL'
 SPEC = {
@@ -37,6 +37,8 @@ MUTATORS = {'update', 'add', 'addlist', 'clear', 'pop', 'popall', 'poplast', 'po
 
 
 def run(ctx):
+    from rules.common import require_fields
+    require_fields(ctx.program, 'urlutils.URL', ['path_parts', 'query_params', 'fragment', 'scheme', 'host'])
     prog = ctx.program
     ci = prog.cls(CLS)
     nav = prog.func(CLS + '.navigate')
@@ -192,9 +194,23 @@ def run(ctx):
             import itertools
             shapes += [list(t) for t in itertools.product(['', 'a'], repeat=n)]
         wrong = []
+        # the whole guard of the pop: every enclosing condition that mentions the list, in evaluation order (short-circuit)
+        dnf = [[(a, t) for a, t in conj if any(isinstance(x, ast.Name) and x.id == var for x in ast.walk(a))]
+               for conj in guard_dnf(rp, c)]
+
+        def guard_value(env):
+            for conj in dnf:
+                good = True
+                for a, t in conj:
+                    if bool(folder.fold(a, env=env)) != t:
+                        good = False
+                        break
+                if good:
+                    return True
+            return False
         for sh in shapes:
             try:
-                got = bool(folder.fold(ifn.test, env={var: tuple(sh)}))
+                got = guard_value({var: tuple(sh)})
             except Unknown as e:
                 raise AnalysisError('cannot fold the pop guard %s: %s' % (txt(ifn.test), e))
             except Exception:
